@@ -93,6 +93,8 @@ def main():
         todo = []
         sd = os.path.join(ROOT, "seeded")
         for d in sorted(os.listdir(sd)):
+            if not os.path.exists(os.path.join(sd, d, "meta.json")):
+                continue  # seeded/rejected: examined and found not to break the property as stated
             meta = json.load(open(os.path.join(sd, d, "meta.json")))
             todo.append(dict(name=d, prop=meta["property"], patch=os.path.join(sd, d, "patch.diff"), expect="caught", pkgs=meta.get("packages", ["./..."])))
     todo = [m for m in todo if a.only in m["name"] or a.only == m["prop"]]
